@@ -6,16 +6,22 @@
    EmitSetup: the statements, parameter values and tables of the configuration. *)
 EXTENDS MC_BQLSession
 VARIABLE hist
-CONSTANT Depth
+CONSTANTS Depth,        \* number of public calls per emitted behaviour
+          GenTextIdx    \* parameter sets offered to execute(text) (all of them are offered to execute(object))
 
 Call(op, s, ps, res) == [op |-> op, s |-> s, ps |-> ps, res |-> res, match |-> AllMatch(s, ps)]
 
-GInit == Init /\ hist = <<>>
+(* every statement object exists when a history starts (the usual way: parse once, execute many times);
+   Parse replaces an object by a new one *)
+GInit == /\ Init!2 /\ Init!3 /\ Init!4
+         /\ stmts = [s \in 1..NStmts |-> [parsed |-> TRUE, names |-> FreshNames(Text(s))]]
+         /\ hist = <<>>
 GNext ==
     /\ Len(hist) < Depth \/ cur.phase # "idle"
     /\ \/ \E s \in 1..NStmts : Parse(s) /\ Len(hist) < Depth
                                /\ hist' = Append(hist, [op |-> "parse", s |-> s, ps |-> <<>>, res |-> ErrorResult, match |-> TRUE])
-       \/ /\ \/ \E s \in 1..NStmts : \E i \in 1..Len(StmtParams[s]) : Execute(s, i) \/ ExecuteText(s, i)
+       \/ /\ \/ \E s \in 1..NStmts : \E i \in 1..Len(StmtParams[s]) : Execute(s, i)
+             \/ \E s \in 1..NStmts : \E i \in GenTextIdx : ExecuteText(s, i)
              \/ \E s \in 1..NStmts : \E ij \in ManyPairs : ExecuteMany(s, ij)
              \/ Number \/ Bind \/ Run
           /\ hist' = IF results'.n = results.n + 1
